@@ -89,7 +89,8 @@ def mutate_line(line: str, rnd: random.Random) -> str | None:
             p[8] = p[8][:2 * 255]
         _fix_len(p)
     elif k < 22:  # length field out of step
-        p[7] = f"{max(0, min(999, int(p[7]) + rnd.choice((-1, 1)) if p[7].isdigit() else 1)):03d}"
+        n = int(p[7]) if p[7].isascii() and p[7].isdigit() else 1
+        p[7] = f"{max(0, min(999, n + rnd.choice((-1, 1)))):03d}"
     elif k < 24:  # verb
         p[1] = rnd.choice(VERBS)
     elif k < 26 and STATE["codes"]:  # code (payload kept): another known code, or one hex digit of it flipped (mostly unknown codes)
@@ -123,7 +124,10 @@ def custom_mutator(data: bytes, max_size: int, seed: int) -> bytes:
         line = data.decode("latin-1")
     except Exception:  # noqa: BLE001
         return atheris.Mutate(data, max_size)
-    out = mutate_line(line, rnd)
+    try:
+        out = mutate_line(line, rnd)
+    except Exception:  # noqa: BLE001  (a slip of the mutator must never end a campaign: fall back to libFuzzer's own mutation)
+        out = None
     if out is None:
         return atheris.Mutate(data, max_size)
     b = out.encode("latin-1", "replace")
@@ -132,12 +136,15 @@ def custom_mutator(data: bytes, max_size: int, seed: int) -> bytes:
 
 def custom_crossover(d1: bytes, d2: bytes, max_size: int, seed: int) -> bytes:
     """Header of one frame with the payload of the other (length in step)."""
-    p1, p2 = _split(d1.decode("latin-1")), _split(d2.decode("latin-1"))
-    if p1 is None or p2 is None:
+    try:
+        p1, p2 = _split(d1.decode("latin-1")), _split(d2.decode("latin-1"))
+        if p1 is None or p2 is None:
+            return d1[:max_size]
+        p1[8] = p2[8]
+        _fix_len(p1)
+        return " ".join(p1).encode("latin-1", "replace")[:max_size]
+    except Exception:  # noqa: BLE001
         return d1[:max_size]
-    p1[8] = p2[8]
-    _fix_len(p1)
-    return " ".join(p1).encode("latin-1", "replace")[:max_size]
 
 
 def _dump() -> None:
@@ -219,7 +226,7 @@ def main() -> None:
         STATE["col"].note("fuzz campaigns from an empty corpus")
     _dump()
     argv = [sys.argv[0], a.corpus, f"-runs={a.runs}", f"-seed={a.seed or 1}", "-max_len=700", "-rss_limit_mb=6000", "-timeout=600",
-            "-print_final_stats=1", "-verbosity=0", "-len_control=0"]
+            "-print_final_stats=1", "-verbosity=0", "-len_control=0", f"-artifact_prefix={os.path.dirname(os.path.abspath(a.out))}/"]
     atheris.Setup(argv, test_one_input, custom_mutator=custom_mutator, custom_crossover=custom_crossover)
     atheris.Fuzz()
 
